@@ -3007,6 +3007,10 @@ class x86_mn(x86_mn_base):
         if can_be_16_32:
             self.mnemo_mode = None
             for a in args_eval:
+                if [k for k in a if type(k) == int and k >= 0x100]:
+                    # segment, control and debug registers do not decide
+                    # the operand size
+                    continue
                 if (is_reg(a)) and a[x86_afs.size] == u32:
                     self.mnemo_mode = u32
                     break
